@@ -1,5 +1,7 @@
 import DC.Gen.Loops
 import DC.Proofs.SkelSound
+import DC.Proofs.SkelCalls
+import DC.Proofs.SkelTerm
 import DC.Spec.AssumedLoops
 set_option maxRecDepth 100000
 
@@ -27,12 +29,17 @@ the header of that file):
   executes its body at most `n - i + 1` times, and any chain of back-edge iterations has length at most `n - i`
   (`backedges_bounded`), so no certified loop can iterate forever.
 
-What is NOT proved (hence the suffix `_partial` on the summary theorem): termination and the LINEAR bound for the whole
-of `Parse`.  Missing are (1) a well-founded argument over the call graph — "no recursion cycle without an advance",
-i.e. that every cycle of `callF` edges passes through a call entered only with kinds in `adv` or after a `next`; the
-contracts `adv` are the data for it but the cycle check and the induction are not done; (2) the charging argument that
-turns "each loop activation iterates at most (tokens it consumes + 1) times" into a global count `≤ c · tokens`
-(nested loops and callees share the consumed tokens; the constant needs the maximal non-advancing call depth from (1));
+* `all_ranks_check`, `nonadvancing_call_rank`, `nonadvancing_depth_bounded`: "no recursion cycle without an advance" —
+  between two advances of the cursor the call stack can deepen by at most `maxRank` frames.
+* `terminates_partial`: from these, by well-founded induction on (tokens left, rank), every call of every function of
+  the SKELETON program terminates from every index (`Term`, the inductive characterisation of "no infinite run"),
+  taking the 16 `takenFinite` loops to run finitely often.
+
+What is NOT proved (hence the suffix `_partial`): (1) the LINEAR bound — the charging argument that turns "each loop
+activation iterates at most (tokens it consumes + 1) times" and "at most `maxRank` nested calls per token" into a
+global count `≤ c · tokens` is not done (`Term` has no step counter); (2) termination is relative to the `takenFinite`
+loops: `range`/`counted` are finite by construction of Go, the 3 `counter` loops have a certificate on a virtual
+stream that is not connected to `Term`, the 2 reviewed loops only have a human argument;
 (3) the memory half of the property; (4) the two assumed loops; (5) the correspondence skeleton ↔ Go source is by
 construction of the translator, not by a Lean proof.  The search side (`harness` property C02: step counter with a
 calibrated bound, memory per token) covers the rest empirically.
@@ -75,6 +82,26 @@ theorem contracts_checked : ∀ f, funOK prog f = true := progOK_all all_contrac
     `loopOK` certificate over its skeleton.  A change to the Go source that introduces a loop iteration which may
     consume no token makes this `decide` fail. -/
 theorem all_loops_certified : DC.Gen.Loops.loops.all (certified prog) = true := by decide +kernel
+
+/-- OBLIGATION (regenerated, kernel-evaluated): the ranks proposed by the translator decrease along every call that
+    can be entered without the cursor having moved since the caller was entered (per token kind): the non-advancing
+    call graph has no cycle -/
+theorem all_ranks_check : (List.range prog.funs.size).all (rankOK prog ranks) = true := by decide +kernel
+
+theorem ranks_checked : ∀ f, rankOK prog ranks f = true := rankOK_all all_ranks_check
+
+/-- The loops that are TAKEN to run finitely often in `terminates_partial`: those not certified by a token skeleton —
+    `range`/`counted` (finite by construction), `counter` (certified, but on a virtual stream indexed by a local counter)
+    and the reviewed list.  Identified by the token skeleton of their body as it occurs in the function skeletons. -/
+def takenFinite : List Cmd :=
+  ((DC.Gen.Loops.loops.filter (fun L => L.kind != .token)) ++ uncertified).map (·.fbody)
+
+def isTakenFinite (c : Cmd) : Bool := takenFinite.contains c
+
+/-- OBLIGATION (regenerated, kernel-evaluated): every `loop` node in every function skeleton is certified by `loopOK`
+    or is one of `takenFinite` — no loop of a function body escapes the inventory -/
+theorem all_function_loops_covered :
+    (List.range prog.funs.size).all (fun f => loopsCert prog isTakenFinite (prog.body f)) = true := by decide +kernel
 
 /-- the loops without certificate are exactly the reviewed list (a new one breaks the build) -/
 theorem uncertified_are_assumed :
@@ -124,6 +151,31 @@ theorem loops_bounded {L : Loop} (hL : SkeletonLoop L) {ks : List Nat} (hks : WF
     (h : LoopRun prog ks L.body i n o j) (hi : i ≤ ks.length) : n + i ≤ ks.length + 1 :=
   DC.Model.Skel.loops_bounded contracts_checked hks (skeleton_loop_ok hL) h hi
 
+/-- a call entered with the cursor still where it was when the caller was entered goes strictly down in rank -/
+theorem nonadvancing_call_rank {ks : List Nat} (hks : WF ks) {f i g} (h : Calls prog ks (prog.body f) i g i) :
+    rankOf (ranks.getD g []) (cur ks i) < rankOf (ranks.getD f []) (cur ks i) :=
+  DC.Model.Skel.nonadvancing_call_rank contracts_checked hks ranks_checked h
+
+/-- no recursion without an advance: a chain of `n` nested calls all entered at the same token index has
+    `n ≤ rank(outermost function, current kind)`, and the ranks are at most `maxRank` -/
+theorem nonadvancing_depth_bounded {ks : List Nat} (hks : WF ks) {i f n h} (hc : CallChain prog ks i f n h) :
+    n + rankOf (ranks.getD h []) (cur ks i) ≤ rankOf (ranks.getD f []) (cur ks i) :=
+  DC.Model.Skel.nonadvancing_depth_bounded contracts_checked hks ranks_checked hc
+
+/-- the largest rank: no chain of calls without an advance is longer than this -/
+def maxRank : Nat := ranks.foldl (fun m rk => rk.foldl (fun m p => max m p.2) m) 0
+theorem maxRank_small : maxRank ≤ 8 := by decide +kernel
+
+/-- **Termination of the skeleton program (partial w.r.t. the property: see the module comment).**
+    For every token stream, every call of every parser function terminates from every token index — there is no infinite
+    run of the skeleton semantics — where code not translated (`call`: other packages, `verifTick`) is taken to
+    terminate and the `takenFinite` loops (8 `range`, 3 `counted`, 3 `counter`, 2 reviewed) are taken to run finitely
+    often (their iterations are shown to terminate).  Proof: well-founded induction on (tokens left, rank at the current
+    kind), using `loop_progress` for the certified loops and the rank decrease for calls that have not advanced. -/
+theorem terminates_partial {ks : List Nat} (hks : WF ks) (f i : Nat) (hi : i ≤ ks.length) :
+    Term prog ks (fun c => isTakenFinite c = true) (prog.body f) i :=
+  DC.Model.Skel.terminates contracts_checked hks ranks_checked (loopsCert_all all_function_loops_covered) f i hi
+
 /-- Summary (partial, see the module comment for what is missing): all contracts check, every loop is certified or on
     the reviewed list, and certified skeleton loops make progress on every back edge and are bounded by the number of
     remaining tokens. -/
@@ -164,6 +216,15 @@ example : loopOK prog (alts [seqs [.assume (co [DC.Gen.Tokens.tRPAREN, DC.Gen.To
 /-- a loop whose condition admits EOF and whose body is a bare `next` is rejected (EOF is sticky) -/
 example : loopOK prog .next = false := by decide +kernel
 example : loopOK prog (.seq (.assume (co [DC.Gen.Tokens.tEOF])) .next) = true := by decide +kernel
+
+/-- `Term` is not trivially true: `for { }` with an empty body does not terminate -/
+example : ∀ i, ¬ Term prog [] (fun _ => False) (.loop .skip) i := by
+  intro i h
+  generalize hc : Cmd.loop .skip = c at h
+  induction h with
+  | loop _ _ _ ih2 => cases hc; exact ih2 .norm _ .skip (Or.inl rfl) rfl
+  | loopA ha _ => exact ha
+  | _ => cases hc
 
 /-- the hypotheses of the theorems are satisfiable: a well-formed stream, a certified skeleton loop, a real run -/
 example : WF [DC.Gen.Tokens.tSELECT, DC.Gen.Tokens.tNUMBER, DC.Gen.Tokens.tSEMICOLON] := by
